@@ -77,8 +77,8 @@ func (fr *Frame) monitorCall(ins ssa.CallInstruction, cc *ssa.CallCommon, ci *ca
 	mu := args[0]
 	held := c.ghost(fr.st, "held")
 	fr.ghostAtCall(ci, 0, "before", args)
-	defer fr.callSpecAssumes(ci)
 	defer fr.ghostAtCallAfter(ci, 0, args, nil)
+	defer fr.callSpecAssumes(ci)
 	switch meth {
 	case "Lock", "RLock":
 		fr.oblige("monitor.nolock", "", not(sel(held, mu, SBool)), ins.Pos(), "mutex not already held (self-deadlock)")
@@ -104,28 +104,83 @@ func (fr *Frame) monitorEnv(mon *Monitor, obj Term, objT types.Type, st *State) 
 	return env
 }
 
-// acquire: protected fields may have been changed by other threads; the invariant holds.
+// acquire: protected state may have been changed by other threads; the invariant holds.
+// Protects entries: `f` (field of the object), `f.g` (field g of the object f points to),
+// `T.f` (field f of every object of struct type T in the package), `$ghost`.
 func (fr *Frame) acquire(mon *Monitor, obj Term, objT types.Type, mu Term) {
 	c := fr.c
 	m := newModSet()
 	st := objT.Underlying().(*types.Pointer).Elem()
 	su := st.Underlying().(*types.Struct)
-	for _, pf := range mon.Protects {
-		if strings.HasPrefix(pf, "$") {
-			m.ghosts[pf[1:]] = true
-			continue
-		}
-		path, ft := findField(su, pf)
-		if len(path) != 1 {
-			evalFail("monitor %s: no field %s", mon.TypeKey, pf)
-		}
-		cell := c.fieldPtr(obj, st, path[0])
+	var reload []func()
+	addCells := func(cell Term, ft types.Type) {
 		for _, lp := range c.leafPaths(ft) {
 			srt := c.sortOf(lp.t)
 			hn := heapName(srt)
 			c.heapSort[hn] = srt
 			m.locs[hn] = append(m.locs[hn], lp.ptr(cell))
 		}
+		reload = append(reload, func() {
+			v := c.load(fr.st, cell, ft)
+			if v.Sort == SInt || v.Sort == SSlice || v.Sort == SPtr || v.Sort == SIface {
+				c.assumeTypeInv(v, ft, fr.st)
+			}
+		})
+	}
+	for _, pf := range mon.Protects {
+		if strings.HasPrefix(pf, "$") {
+			m.ghosts[pf[1:]] = true
+			continue
+		}
+		parts := strings.Split(pf, ".")
+		if path, ft := findField(su, parts[0]); len(path) == 1 {
+			cell := c.fieldPtr(obj, st, path[0])
+			if len(parts) == 1 {
+				addCells(cell, ft)
+				continue
+			}
+			// f.g: field g of the object f points to (f itself is not protected by this entry)
+			pt, ok := ft.Underlying().(*types.Pointer)
+			if !ok {
+				evalFail("monitor %s: %s is not a pointer field", mon.TypeKey, parts[0])
+			}
+			inner, ok := pt.Elem().Underlying().(*types.Struct)
+			if !ok {
+				evalFail("monitor %s: %s does not point to a struct", mon.TypeKey, parts[0])
+			}
+			p2, ft2 := findField(inner, parts[1])
+			if len(p2) != 1 {
+				evalFail("monitor %s: no field %s", mon.TypeKey, pf)
+			}
+			base := c.load(fr.st, cell, ft)
+			addCells(c.fieldPtr(base, pt.Elem(), p2[0]), ft2)
+			continue
+		}
+		if len(parts) == 2 {
+			// T.f: a field of every object of a struct type of the monitor's package
+			if p := c.V.P.ByPath[mon.Pkg]; p != nil {
+				if tn, ok := p.Types.Scope().Lookup(parts[0]).(*types.TypeName); ok {
+					if ts, ok := tn.Type().Underlying().(*types.Struct); ok {
+						if p2, ft2 := findField(ts, parts[1]); len(p2) == 1 {
+							for _, lp := range c.leafPaths(ft2) {
+								srt := c.sortOf(lp.t)
+								hn := heapName(srt)
+								c.heapSort[hn] = srt
+								if len(lp.steps) == 0 {
+									m.addField(hn, c.V.fieldID(tn.Type(), p2[0]))
+								} else if fid, isF := lp.lastFieldID(); isF {
+									m.addField(hn, fid)
+								} else {
+									m.elems[hn] = true
+								}
+							}
+							continue
+						}
+					}
+				}
+			}
+		}
+		evalFail("monitor %s: cannot resolve protected entry %s", mon.TypeKey, pf)
 	}
 	c.havoc(fr.st, m, "lock "+mon.TypeKey)
 	c.setGhost(fr.st, "held", sto(c.ghost(fr.st, "held"), mu, tTrue))
@@ -133,16 +188,8 @@ func (fr *Frame) acquire(mon *Monitor, obj Term, objT types.Type, mu Term) {
 	for _, inv := range mon.Inv {
 		c.assume(implies(fr.reach, env.mustBool(inv.E)))
 	}
-	// type invariants of the havocked cells
-	for _, pf := range mon.Protects {
-		if strings.HasPrefix(pf, "$") {
-			continue
-		}
-		path, ft := findField(su, pf)
-		v := c.load(fr.st, c.fieldPtr(obj, st, path[0]), ft)
-		if v.Sort == SInt || v.Sort == SSlice || v.Sort == SPtr {
-			c.assumeTypeInv(v, ft, fr.st)
-		}
+	for _, f := range reload {
+		f()
 	}
 }
 
